@@ -50,6 +50,7 @@ type c10entry struct {
 	seq       int
 	recovered bool
 	prev      string
+	holder    bool // pushed fully allocated ("already sent"): never emitted, only keeps its place in the chain
 }
 
 var c10names = []string{"a", "b", "c", "d"}
@@ -72,6 +73,14 @@ func c10before(order string, e, f *c10entry) bool {
 		return e.name < f.name
 	}
 	return e.seq < f.seq
+}
+
+// c10beforeConcrete decides the order of two entries (forking on symbolic times)
+func c10beforeConcrete(v *verifrt.T, order string, e, f *c10entry) bool {
+	if c10before(order, e, f) {
+		return true
+	}
+	return false
 }
 
 func H_C10_History(v *verifrt.T) {
@@ -112,10 +121,19 @@ func H_C10_History(v *verifrt.T) {
 			e.remaining = e.size
 			var file sts.Hashed
 			base := vFile{name: name, size: e.size, time: e.time, hash: "h"}
-			if v.Param("RECOVERED", 1) == 1 && v.Choose("recovered", 2) == 1 {
+			kind := 0
+			if v.Param("RECOVERED", 1) == 1 {
+				kind = v.Choose("kind", 3)
+			}
+			if kind == 1 {
 				e.recovered = true
 				e.prev = "stored-" + name
 				file = &vRecovered{vFile: base, prev: e.prev, beg: 0, end: e.size}
+			} else if kind == 2 {
+				// already sent before the restart: fully allocated placeholder
+				e.recovered, e.holder = true, true
+				e.remaining = 0
+				file = &vRecovered{vFile: base, prev: "", beg: e.size, end: e.size}
 			} else {
 				b := base
 				file = &b
@@ -132,10 +150,45 @@ func H_C10_History(v *verifrt.T) {
 			continue
 		}
 		// ---- pop
+		// placeholders that come first in order are passed over (they become
+		// the predecessor of what follows) as long as another file follows
+		for _, gname := range []string{"g1", "g2"} {
+			for {
+				var first *c10entry
+				n := 0
+				for _, p := range pending {
+					if p.group != gname {
+						continue
+					}
+					n++
+					if first == nil {
+						first = p
+						continue
+					}
+					if v.Symbolic() || true {
+						if c10beforeConcrete(v, order, p, first) {
+							first = p
+						}
+					}
+				}
+				if first == nil || !first.holder || n < 2 {
+					break
+				}
+				lastDone[gname] = first.name
+				for i, p := range pending {
+					if p == first {
+						pending = append(pending[:i], pending[i+1:]...)
+						break
+					}
+				}
+			}
+		}
 		s := q.Pop()
 		pops++
 		if s == nil {
-			v.Assert(len(pending) == 0, "C10.O1 Pop returns nothing only when nothing is pending")
+			for _, p := range pending {
+				v.Assert(p.holder, "C10.O1 Pop returns nothing only when nothing is pending")
+			}
 			continue
 		}
 		var e *c10entry
@@ -148,6 +201,7 @@ func H_C10_History(v *verifrt.T) {
 		if e == nil {
 			return
 		}
+		v.Assert(!e.holder, "C10.O1 a file queued as already sent is not emitted")
 		for _, f := range pending {
 			if f != e && f.group == e.group {
 				v.Assert(c10before(order, e, f), "C10.O1 the emitted file is first in the configured order")
@@ -165,7 +219,7 @@ func H_C10_History(v *verifrt.T) {
 		switch {
 		case order == sts.OrderNone:
 			v.Assert(prev == "", "C10.O2 unordered tags announce no predecessor")
-		case e.recovered:
+		case e.recovered && !e.holder:
 			v.Assert(prev == e.prev, "C10.O4 a resumed file keeps the predecessor it announced before")
 		default:
 			exp := lastDone[e.group]
